@@ -43,8 +43,12 @@ def ev(t, env):
     if isinstance(t, Sym):
         return env[t.name]
     op, a = t.op, t.args
-    if op in ("to", "as_tensor"):
+    if op in ("to", "as_tensor", "clone", "contiguous", "detach"):
         return ev(a[0], env)
+    if op in ("new_tensor",) and len(a) > 1:
+        return ev(a[1], env)  # value of the copied data (the graph is C14's business)
+    if op in ("zeros_like", "ones_like", "full_like", "new_zeros", "new_ones"):
+        return sp.Integer(0) if "zeros" in op else sp.Integer(1) if "ones" in op else ev(a[1], env)
     if op in ("add", "sub", "mul", "div"):
         x, y = ev(a[0], env), ev(a[1], env)
         return {"add": x + y, "sub": x - y, "mul": x * y, "div": x / y}[op]
